@@ -102,8 +102,29 @@ def load_seeded():
     return out
 
 
+def load_neutral():
+    """harmless changes written by independent sub-agents (false-alarm rounds, /verif/neutral): the property's own check, and every
+    check that raised an alarm when the change was first evaluated, must stay silent"""
+    out = []
+    d = os.path.join(VERIF, 'neutral')
+    for sid in sorted(os.listdir(d)) if os.path.isdir(d) else []:
+        mp = os.path.join(d, sid, 'meta.json')
+        if not os.path.exists(mp):
+            continue
+        m = json.load(open(mp))
+        if m.get('verdict', 'harmless') != 'harmless':
+            continue
+        if m.get('known_limit'):
+            continue            # recorded in DESIGN.md as a shape the checks do not see through yet
+        props = {m['property']} | {c.split('/')[0] for c in (m.get('alarms_on_first_evaluation') or {})}
+        for prop in sorted(props):
+            out.append({'id': 'neutral-%s-%s' % (sid, prop), 'property': prop, 'expect': 'silent',
+                        'patch': os.path.join(d, sid, 'patch.diff'), 'edits': []})
+    return out
+
+
 def load_variants():
-    out = load_seeded()
+    out = load_seeded() + load_neutral()
     d = os.path.join(VERIF, 'selftest')
     for fn in sorted(os.listdir(d)) if os.path.isdir(d) else []:
         if fn.endswith('.json'):
